@@ -177,6 +177,10 @@ Definition act_select_all (s : sel) : sel :=
 
 Definition act_deselect_all (s : sel) : sel := with_selected s [].
 
+(** act_select_raw_item(run_num, item_index, item) and act_select_matched (which delegates to it) *)
+Definition act_select_raw_item (s : sel) (r idx id : N) : sel :=
+  if negb (multi s) then s else with_selected s (m_insert (selected s) (r, idx) id).
+
 (** get_selected_indices_and_items: (indices, object ids) *)
 Definition output (s : sel) : option (list N * list N) :=
   let select_cursor := negb (multi s) || match selected s with [] => true | _ => false end in
@@ -196,7 +200,8 @@ Definition current_item (s : sel) : option N := option_map mi_id (item_at s (cur
 Inductive op :=
 | Up (k : Z) | Down (k : Z) | PageUp (k : Z) | PageDown (k : Z) | HalfPageUp (k : Z) | HalfPageDown (k : Z)
 | SelectRow (r : N) | AppendItems (b : list mitem) | Clear | Draw (h : N)
-| Toggle | ToggleAll | SelectAll | DeselectAll | SetRun (r : N).
+| Toggle | ToggleAll | SelectAll | DeselectAll | SetRun (r : N)
+| SelectRaw (r idx id : N) | SelectMatched (r idx id : N).
 
 Definition step (s : sel) (o : op) : option sel :=
   match o with
@@ -215,6 +220,8 @@ Definition step (s : sel) (o : op) : option sel :=
   | SelectAll => Some (act_select_all s)
   | DeselectAll => Some (act_deselect_all s)
   | SetRun r => Some (with_run s r)
+  | SelectRaw r idx id => Some (act_select_raw_item s r idx id)
+  | SelectMatched r idx id => Some (act_select_raw_item s r idx id)
   end.
 
 Fixpoint run_ops (s : sel) (ops : list op) : option sel :=
